@@ -8,6 +8,7 @@ import (
 	"fmt"
 	"go/types"
 	"strings"
+	"sync"
 
 	"golang.org/x/tools/go/ssa"
 	"verif/engine/sym"
@@ -232,7 +233,7 @@ func concreteKey(v Value) (string, bool) {
 			return "nil", true
 		}
 		s, ok := concreteKey(v.V)
-		return "I" + v.T.String() + "/" + s, ok
+		return fmt.Sprintf("I%d/", typeID(v.T)) + s, ok
 	case Struct:
 		var sb strings.Builder
 		sb.WriteString("{")
@@ -258,7 +259,7 @@ func concreteKey(v Value) (string, bool) {
 		sb.WriteString("]")
 		return sb.String(), true
 	case RType:
-		return "T" + v.T.String(), true
+		return fmt.Sprintf("T%d", typeID(v.T)), true
 	case UnsafePtr:
 		return concreteKey(v.P)
 	}
@@ -493,4 +494,29 @@ func describe(v Value) string {
 		return "opaque(" + v.Why + ")"
 	}
 	return fmt.Sprintf("%T", v)
+}
+
+// typeID numbers types up to types.Identical (an alias and the type it names
+// get the same number; their String() differs).
+var (
+	typeRegMu    sync.Mutex
+	typeReg      []types.Type
+	typeRegCache = map[types.Type]int{}
+)
+
+func typeID(t types.Type) int {
+	typeRegMu.Lock()
+	defer typeRegMu.Unlock()
+	if id, ok := typeRegCache[t]; ok {
+		return id
+	}
+	for i, u := range typeReg {
+		if types.Identical(t, u) {
+			typeRegCache[t] = i
+			return i
+		}
+	}
+	typeReg = append(typeReg, t)
+	typeRegCache[t] = len(typeReg) - 1
+	return len(typeReg) - 1
 }
